@@ -197,7 +197,9 @@ def run(run, tier, load):
         check_dispatch(run, facts, cfg)
     if tier == 'thorough':
         self_check(run)
-        facts = load('nostd')
+        facts = load('nostd', optional=True)
+        if facts is None:
+            return
         for src in F.INT_FORMATS:
             for dst in F.INT_FORMATS:
                 if src != dst:
